@@ -474,7 +474,7 @@ func c15R2Patterns(h H) {
 
 func c15R3(h H) {
 	r := h.r
-	r.Rule("R3", "redirect synthesis: makePlaintextRedirects appends redirPlaintextHost(cfg) only behind TLS.Enabled, Scheme != \"http\", Port != HTTP port (the sites MakeServers strips TLS from — contradiction rule), !NoRedirect and !hostHasOtherPort(…, HTTP port); the synthesised handler redirects with 301 to a target that starts with the constant \"https://\", contains the request's host and ends with r.URL.RequestURI()", 7)
+	r.Rule("R3", "redirect synthesis: makePlaintextRedirects appends redirPlaintextHost(cfg) only behind TLS.Enabled, Scheme != \"http\", Port != HTTP port (the sites MakeServers strips TLS from — contradiction rule), !NoRedirect and !hostHasOtherPort(…, HTTP port); the synthesised handler redirects with 301 to a target that starts with the constant \"https://\", contains the request's host (an IPv6 literal in brackets, with or without a port in the Host header) and ends with r.URL.RequestURI()", 7)
 	fn := h.fn("R3", hs, "makePlaintextRedirects")
 	if fn != nil {
 		calls := callsTo(fn, "httpserver.redirPlaintextHost")
@@ -515,7 +515,9 @@ func c15R3(h H) {
 		cfgT := rp.Params[0].Type().(*types.Pointer).Elem()
 		bad, nrun := "", 0
 		for _, sitePort := range []string{"443", "8443"} {
-			for _, hostHasPort := range []bool{false, true} {
+			for _, hostKind := range []int{0, 1, 2, 3} {
+				// 0: a name; 1: a name with port; 2: an IPv6 literal with port; 3: an IPv6 literal without port
+				hostHasPort := hostKind == 1 || hostKind == 2
 				var redirURL aval
 				redirCode := int64(-1)
 				nRedir := 0
@@ -559,6 +561,9 @@ func c15R3(h H) {
 					return aunk{"site field " + path}
 				}
 				desc := fmt.Sprintf("site on port %s, request Host with port=%v", sitePort, hostHasPort)
+				if hostKind >= 2 {
+					desc += " (an IPv6 literal: [2001:db8::1])"
+				}
 				res, und := env.run(rp, []aval{aptr{cfg, ""}})
 				nrun++
 				np, ok := res.(aptr)
@@ -594,8 +599,13 @@ func c15R3(h H) {
 					break
 				}
 				reqHost := mkStr([]atom{{sym: "reqhost"}})
-				if hostHasPort {
+				switch hostKind {
+				case 1:
 					reqHost = mkStr([]atom{{sym: "reqhost"}, {lit: ":80"}})
+				case 2:
+					reqHost = astr("[2001:db8::1]:80")
+				case 3:
+					reqHost = astr("[2001:db8::1]")
 				}
 				req := &aobj{name: "request", typ: types.Typ[types.Int], f: map[string]aval{"Host": reqHost}}
 				if sig := handler.fn.Signature; sig.Params().Len() == 2 {
@@ -610,6 +620,9 @@ func c15R3(h H) {
 				}
 				_, und = env.runFunc(handler, []aval{aiface{aptr{&aobj{name: "writer", typ: types.Typ[types.Int], f: map[string]aval{}}, ""}, types.Typ[types.Int]}, aptr{req, ""}})
 				want := "\"https://‹reqhost›"
+				if hostKind >= 2 {
+					want = "\"https://[2001:db8::1]"
+				}
 				if sitePort != "443" {
 					want += ":" + sitePort
 				}
